@@ -6,5 +6,5 @@ Extraction Language OCaml.
 Extraction "../ocaml/gen/c13_model.ml"
   seqfold kernel loopaccum_ranges partials loopaccum sinc_collate qutil_reduce
   u_add u_mul s_add s_mul z_max z_min
-  aget aset of_list to_list part_thread partitioner walls fixup trimedian qsort_inner qsort_inner_old qsort_node movepiv mergesort qutil_params qt_params
+  aget aset of_list to_list part_thread partitioner walls fixup trimedian qsort_inner qsort_inner_old qsort_inner_nostall qsort_node movepiv mergesort qutil_params qt_params
   ap_init ap_step ap_step_ptrtest ap_run all_done ap_processed tr_init tr_step tr_final_ok.
